@@ -72,6 +72,8 @@ def run(ctx):
     # detection for objects of the other version
     from .C14 import rule_version_constants
     ctx.do(rule_version_constants, rule_id="C04.version-constants")
+    from .C14 import rule_only_21_mechanisms
+    ctx.do(rule_only_21_mechanisms, rule_id="C04.version-constants")
     from .pitfalls import rule_loop_flags_monotone
     ctx.do(rule_loop_flags_monotone, "C04.flag-back", ("stix2.base", "stix2.properties"))
     from .hidden_state import rule_no_hidden_state
